@@ -399,6 +399,17 @@ func checkFastCodec(c FCCase, cv *cov) (v *evid.Violation) {
 				v = evid.Failf("%s.FastRead after failed reads of truncated images on the same receiver does not reproduce the value: %s", name, d)
 				return
 			}
+			// the result just obtained (its Extra map) is now held by the caller; further failing reads into
+			// the same receiver must not reach into it
+			for _, cut := range []int{1, 2, len(img) / 3, len(img) - 1} {
+				if cut > 0 && cut < len(img) {
+					z2.FastRead(img[:cut:cut])
+				}
+			}
+			if d := eqModel(c.Kind, &got2, &m); d != "" {
+				v = evid.Failf("%s: a value obtained from FastRead (and held by the caller) was changed by later failing reads of truncated images into the same receiver: %s", name, d)
+				return
+			}
 		}
 		got = readBack(c.Kind, z)
 		if d := eqModel(c.Kind, &got, &want); d != "" {
@@ -583,3 +594,111 @@ func TestC11_Permutations(t *testing.T) {
 }
 
 var _ = bytes.Equal
+
+// TestC11_DeepUnknown: an unknown field whose value is nested close to the recursion limit, at every
+// position among the known fields. Up to 63 levels the struct must be read like any other; at 64 levels
+// (the skippers' boundary zone) only independence of the position is demanded: the verdict and, if
+// accepted, the decoded value must be the same wherever the unknown field stands.
+func TestC11_DeepUnknown(t *testing.T) {
+	rec := evid.New("C11", "c11_deep_unknown", "enumeration: the three shipped structs (with/without Extra) x an unknown field holding a chain of d = 58..64 nested containers of one kind {struct, map value side, map key side, set, list} with innermost content {empty, i32} x every position among the known fields (before each, before STOP); d <= 63: full C11 oracle; d = 64: the outcome (accept/reject, consumed length, decoded value) must not depend on the position; distinct by construction")
+	defer rec.Flush()
+	b := evid.NewBatch()
+	for kind := 0; kind < 3; kind++ {
+		for _, withExtra := range []bool{true, false} {
+			if kind == 2 && withExtra {
+				continue
+			}
+			nk := []int{3, 2, 2}[kind]
+			if withExtra {
+				nk++
+			}
+			for d := 58; d <= 64; d++ {
+				for a := 0; a < 5; a++ {
+					for leaf := 0; leaf < 2; leaf++ {
+						kinds := make([]int, d)
+						for i := range kinds {
+							kinds[i] = a
+						}
+						uv := buildNestChain(kinds, leaf)
+						ub := ref.Append([]byte{byte(uv.T), 0, 77}, &uv, nil)
+						type outcome struct {
+							ok bool
+							n  int
+							d  string
+						}
+						var first outcome
+						for gap := 0; gap <= nk; gap++ {
+							c := FCCase{Kind: kind, S: [3]PStr{{L: 5, S: 1}, {L: 0}, {L: 17, S: 9}}, I32: -7, ExtraNil: !withExtra, Gaps: make([]evid.Hex, nk+1)}
+							if withExtra {
+								c.Extra = []KVP{{K: PStr{L: 2, S: 3}, V: PStr{L: 3, S: 4}}}
+							}
+							c.Gaps[gap] = ub
+							b.Evals++
+							b.Distinct++
+							b.Nontrivial++
+							if d <= 63 {
+								var cv cov
+								if v := checkFastCodec(c, &cv); v != nil {
+									failEnum(t, rec, "c11_fastcodec", c, v)
+									rec.Merge(b)
+									return
+								}
+								continue
+							}
+							// d == 64: build the image by hand and compare outcomes across positions
+							m := c.model()
+							known := knownFields(kind, &m)
+							if ef, ok := extraField(kind, &c, &m); ok {
+								known = append(known, ef)
+							}
+							var img []byte
+							for i, f := range known {
+								if i == gap {
+									img = append(img, ub...)
+								}
+								img = append(img, byte(f.V.T))
+								img = ref.Put16(img, uint16(f.ID))
+								img = ref.Append(img, &f.V, nil)
+							}
+							if gap == len(known) {
+								img = append(img, ub...)
+							}
+							img = append(img, 0)
+							y := newFC(kind, nil)
+							var o outcome
+							var err error
+							p, st := evid.Safe(func() { o.n, err = y.FastRead(img) })
+							if p != nil {
+								failEnum(t, rec, "c11_fastcodec", c, &evid.Violation{Msg: fmt.Sprintf("%s.FastRead panicked on an unknown field nested %d levels: %v", kindNames[kind], d, p), Stack: st})
+								rec.Merge(b)
+								return
+							}
+							o.ok = err == nil
+							if o.ok {
+								got := readBack(kind, y)
+								o.d = eqModel(kind, &got, &m)
+								if o.n != len(img) || o.d != "" {
+									failEnum(t, rec, "c11_fastcodec", c, evid.Failf("%s.FastRead accepted an image with an unknown field nested %d levels at position %d but consumed %d of %d bytes / decoded wrongly: %s", kindNames[kind], d, gap, o.n, len(img), o.d))
+									rec.Merge(b)
+									return
+								}
+							} else {
+								o.n = 0
+							}
+							if gap == 0 {
+								first = o
+							} else if o.ok != first.ok {
+								failEnum(t, rec, "c11_fastcodec", c, evid.Failf("%s.FastRead depends on field order: an unknown field (id 77, %d nested containers of kind %d) is accepted=%v before the first known field but accepted=%v at position %d of %d (err=%v)", kindNames[kind], d, a, first.ok, o.ok, gap, nk, err))
+								rec.Merge(b)
+								return
+							}
+						}
+					}
+				}
+			}
+		}
+	}
+	rec.Merge(b)
+	rec.Sample(map[string]interface{}{"struct": "ApplicationException", "unknown_field_depth": 64, "positions": 3})
+	rec.SetExhaustive()
+}
